@@ -458,3 +458,382 @@ Qed.
 Theorem fresh_no_events cfg s c : wf_cfg cfg -> Reach cfg s -> ctx_fresh s c ->
   forall n, count (issue_in c n) (log s) = 0 /\ count (respond_in c n) (log s) = 0.
 Proof. intros Hcfg Hr Hf. destruct (Reach_CT cfg s Hcfg Hr) as (C1 & _). exact (C1 c Hf). Qed.
+
+(* ------------------------------------------------------------------ *)
+(* B. the cause of the state callback *)
+
+(* the consumer cannot pay for the batch the handler is about to issue *)
+Definition funds_short (s : State) (rc : Ctx) : bool :=
+  let el := filter_providers s rc (c_provs rc) in
+  (0 <? len el) && (c_thr rc <=? len el) && negb (c_super rc)
+  && (bal s (User (c_cons rc)) <? sum_prices el).
+
+Definition is_cbstate_any (e : Event) : bool := match e with EvCbState _ => true | _ => false end.
+
+Lemma no_cbstate_issue_evs s c rc n i provs e :
+  In e (issue_evs s c rc n i provs) -> is_cbstate_any e = false.
+Proof. intros Hin. apply In_issue_evs in Hin. destruct Hin as (j & p & -> & _). reflexivity. Qed.
+
+(* the new-batch handler on a running context below its total: it pauses the context -- and, for a
+   module context, invokes the state callback, once -- exactly when the consumer's balance is
+   below the sum of the prices of the eligible providers (enough of them, not super mode);
+   otherwise it starts (or skips) batch counter + 1, the context stays running, no state callback *)
+Theorem state_callback_cause cfg s c rc :
+  get c (ctxs s) = Some rc -> c_state rc = Running -> d5 rc = false ->
+  if funds_short s rc
+  then get c (ctxs (new_one cfg s c)) = Some (paused_ctx rc)
+       /\ log (new_one cfg s c) = (if c_mod rc =? 0 then [] else [EvCbState c]) ++ log s
+       /\ bank (new_one cfg s c) = bank s
+  else exists k d, get c (ctxs (new_one cfg s c)) = Some (bump rc k)
+       /\ log (new_one cfg s c) = d ++ log s /\ (forall e, In e d -> is_cbstate_any e = false).
+Proof.
+  intros Grc Hr Hd. unfold new_one, ctx_or_zero, funds_short. rewrite Grc.
+  change (is_state rc Running && c_rep rc && (0 <? c_total rc) && (c_total rc <=? c_counter rc))
+    with (d5 rc). rewrite Hd.
+  apply is_state_true in Hr. rewrite Hr.
+  set (el := filter_providers s rc (c_provs rc)).
+  pose proof (sum_prices_nonneg s rc (c_provs rc)) as Hnn. fold el in Hnn.
+  assert (Hinit : forall sp dd, ctxs sp = ctxs s -> height sp = height s -> log sp = dd ++ log s ->
+     (forall e, In e dd -> is_cbstate_any e = false) ->
+     exists k d,
+       get c (ctxs (del_newq (add_expq (initiate_requests sp c (map fst el)) c (height s + c_timeout rc)) c (height s)))
+        = Some (bump rc k)
+       /\ log (del_newq (add_expq (initiate_requests sp c (map fst el)) c (height s + c_timeout rc)) c (height s))
+          = d ++ log s /\ (forall e, In e d -> is_cbstate_any e = false)).
+  { intros sp dd Ec Eh El Hdd. exists (len (map fst el)).
+    exists (EvBatchStart c (c_counter rc + 1) (height s) (len (map fst el))
+              :: issue_evs sp c rc (c_counter rc + 1) 0 (map fst el) ++ dd).
+    unfold initiate_requests, ctx_or_zero. rewrite Ec, Grc. sproj.
+    rewrite issue_all_log, Eh, El. split; [now rewrite get_set_eq|]. split.
+    - cbn [app]. now rewrite app_assoc.
+    - intros e [<-|Hin]; [reflexivity|]. apply in_app_or in Hin. destruct Hin as [Hin|Hin].
+      + eapply no_cbstate_issue_evs; eauto.
+      + now apply Hdd. }
+  destruct ((0 <? len el) && (c_thr rc <=? len el)) eqn:Ecnt; cbn [andb].
+  2:{ exists 0, [EvBatchStart c (c_counter rc + 1) (height s) 0]. unfold skip_batch. sproj.
+      split; [now rewrite get_set_eq|]. split; [reflexivity|].
+      intros e [<-|[]]. reflexivity. }
+  destruct (c_super rc) eqn:Es; cbn [negb andb].
+  - apply (Hinit s []); try reflexivity. intros e [].
+  - unfold transfer. fold (bal s (User (c_cons rc))).
+    assert (E0 : (sum_prices el <? 0) = false) by (apply Z.ltb_ge; lia). rewrite E0. cbn [orb].
+    destruct (bal s (User (c_cons rc)) <? sum_prices el) eqn:Eb.
+    + unfold on_paused. destruct (c_mod rc =? 0); sproj; rewrite get_set_eq; auto.
+    + apply (Hinit _ [EvDebit c (c_cons rc) (sum_prices el)]); try reflexivity.
+      intros e [<-|[]]. reflexivity.
+Qed.
+
+(* in terms of the number of state callbacks in the log *)
+Corollary state_callback_iff_funds_short cfg s c rc :
+  get c (ctxs s) = Some rc -> c_state rc = Running -> d5 rc = false ->
+  forall c', ncbstate c' (new_one cfg s c)
+             = ncbstate c' s + (if eqb c' c && funds_short s rc && negb (c_mod rc =? 0) then 1 else 0).
+Proof.
+  intros Grc Hr Hd c'. pose proof (state_callback_cause cfg s c rc Grc Hr Hd) as H.
+  unfold ncbstate. destruct (funds_short s rc).
+  - destruct H as (_ & -> & _). rewrite count_app. destruct (c_mod rc =? 0); cbn [negb].
+    + rewrite count_nil, andb_false_r. lia.
+    + rewrite count_cons, count_nil. cbn [is_cbstate]. rewrite andb_true_r, andb_true_r.
+      destruct (eqb_spec c c'), (eqb_spec c' c); try congruence; lia.
+  - destruct H as (k & d & _ & -> & Hd'). rewrite count_app, andb_false_r. cbn [andb].
+    assert (Z0 : count (is_cbstate c') d = 0).
+    { apply count_zero_notIn. intros e Hin. specialize (Hd' e Hin). destruct e; try reflexivity. discriminate. }
+    lia.
+Qed.
+
+(* ------------------------------------------------------------------ *)
+(* D. the arguments of every response callback found in the log *)
+
+From SVC Require Import Proofs.C12Proofs.
+
+(* the outputs handed to the callback, unfolded: the non-empty outputs of the stored responses
+   of the batch *)
+Lemma batch_outputs_In s c n o : wf (resps s) ->
+  In o (batch_outputs s c n) <->
+  o <> 0 /\ exists r x, get r (resps s) = Some x /\ in_batch c n r = true /\ rs_out x = o.
+Proof.
+  intros Hw. unfold batch_outputs. rewrite filter_In, in_map_iff. split.
+  - intros ((r & E & Hin) & Hnz). apply negb_true_iff, Z.eqb_neq in Hnz. split; [exact Hnz|].
+    apply isort_In, filter_In in Hin. destruct Hin as (Hk & Hb).
+    destruct (in_keys_get _ _ Hk) as (x & G). rewrite G in E. exists r, x. auto.
+  - intros (Hnz & r & x & G & Hb & E). split.
+    + exists r. rewrite G. split; [exact E|]. apply isort_In, filter_In. split; [|exact Hb].
+      eapply get_Some_in; eauto.
+    + apply negb_true_iff, Z.eqb_neq. exact Hnz.
+Qed.
+
+Lemma len_filter_le {A} (f : A -> bool) l : len (filter f l) <= len l.
+Proof. unfold len. induction l as [|a t IH]; cbn [filter length]; [lia|]. destruct (f a); cbn [length]; lia. Qed.
+
+(* at most one output per stored response of the batch *)
+Lemma len_batch_outputs_le s c n :
+  len (batch_outputs s c n) <= len (filter (in_batch c n) (keys (resps s))).
+Proof.
+  unfold batch_outputs. eapply Z.le_trans; [apply len_filter_le|].
+  unfold len. rewrite map_length. rewrite (Permutation_length (isort_perm rid_leb _)). lia.
+Qed.
+
+Lemma stored_resps_count cfg s c rc : Inv cfg s -> I_cnt s -> get c (ctxs s) = Some rc ->
+  has c (expq_h s) = true ->
+  len (filter (in_batch c (c_counter rc)) (keys (resps s))) = c_bresp rc.
+Proof.
+  intros HI Hc Grc He. destruct (Hc _ _ Grc He) as (_ & A2).
+  destruct (inv_req _ _ HI) as (R1 & R2 & _).
+  rewrite len_filter_keys, <- A2. apply msum_ext. intros r x Hin. unfold of_ctx.
+  destruct (R2 _ _ Hin) as (q & Gq & _). apply get_In in Gq.
+  unfold in_batch. destruct (eqb_spec (rid_ctx r) c) as [E|]; [|reflexivity].
+  destruct (R1 _ _ Gq) as (rc' & G & Eb & _). rewrite E in G.
+  assert (rc' = rc) by congruence. subst rc'. rewrite Eb. cbn [andb]. now rewrite Z.eqb_refl.
+Qed.
+
+(* what is known about the moment a response callback was made: s0 is the state (satisfying the
+   invariant) in which the completing operation started -- the last response of the batch, or the
+   expiry handler of the context --, rc the record of the context then, d the events since *)
+Definition cb_witness (cfg : Params) (l : list Event) (c : CtxId) (n : Z) (outs : list Z) (err : bool) : Prop :=
+  exists s0 rc d,
+    Inv cfg s0 /\ l = d ++ log s0
+    /\ get c (ctxs s0) = Some rc /\ c_counter rc = n /\ 1 <= n /\ c_mod rc <> 0 /\ c_bdone rc = false
+    /\ has c (expq_h s0) = true
+    (* the batch was started with c_breq rc requests, all issued *)
+    /\ (exists h, In (EvBatchStart c n h (c_breq rc)) (log s0))
+    /\ c_breq rc = count (issue_in c n) (log s0)
+    (* the responses accepted so far for this batch are all stored, and counted *)
+    /\ len (filter (in_batch c n) (keys (resps s0))) = c_bresp rc
+    /\ c_bresp rc = count (respond_in c n) (log s0)
+    (* the error flag: fewer outputs than the threshold copied when the batch started *)
+    /\ err = (len outs <? c_bthr rc)
+    /\ ((* the last response arrives: its output is included *)
+        (exists r q who code out,
+           get r (reqs s0) = Some q /\ r_active q = true /\ who = r_prov q
+           /\ in_batch c n r = true /\ get r (resps s0) = None
+           /\ c_bresp rc + 1 = c_breq rc /\ In (EvRespond r) d
+           /\ outs = batch_outputs (set_resps s0 (set r (mkResp who (c_cons rc) code out) (resps s0))) c n)
+        \/ (* the batch expires *)
+        (In (height s0, c) (expq s0) /\ outs = batch_outputs s0 c n)).
+
+Lemma cb_witness_mono cfg l d' c n outs err :
+  cb_witness cfg l c n outs err -> cb_witness cfg (d' ++ l) c n outs err.
+Proof.
+  intros (s0 & rc & d & A1 & -> & A3 & A4 & A5 & A6 & A7 & A8 & A9 & A10 & A11 & A12 & A13 & A).
+  exists s0, rc, (d' ++ d). split; [exact A1|]. split; [now rewrite app_assoc|].
+  do 11 (split; [assumption|]).
+  destruct A as [(r & q & who & code & out & B1 & B2 & B3 & B4 & B5 & B6 & B7 & B8)|B]; [left|right; exact B].
+  exists r, q, who, code, out. repeat (split; [assumption|]). split; [|exact B8].
+  apply in_or_app. now right.
+Qed.
+
+Definition CB (cfg : Params) (s : State) : Prop :=
+  forall c n outs err, In (EvCbResp c n outs err) (log s) -> cb_witness cfg (log s) c n outs err.
+
+Definition PB (cfg : Params) (s : State) : Prop := I_started s /\ I_cnt s /\ CT s /\ CB cfg s.
+
+Lemma In_blog e s : tracked e = true -> (In e (log s) <-> In e (blog s)).
+Proof. intros Ht. unfold blog. rewrite filter_In. tauto. Qed.
+
+Lemma In_done_events_cb c0 rc0 outs0 c n outs err :
+  In (EvCbResp c n outs err) (done_events c0 rc0 outs0) ->
+  c = c0 /\ n = c_counter rc0 /\ outs = outs0 /\ err = (len outs0 <? c_bthr rc0) /\ c_mod rc0 <> 0.
+Proof.
+  unfold done_events. intros [E|Hin]; [discriminate E|].
+  destruct (c_mod rc0 =? 0) eqn:Em; [destruct Hin|].
+  destruct Hin as [E|[]]. injection E as <- <- <- <-. apply Z.eqb_neq in Em. auto.
+Qed.
+
+(* the facts of the witness that only depend on the pre-state *)
+Lemma witness_core cfg s c rc :
+  Inv cfg s -> I_started s -> I_cnt s -> CT s -> get c (ctxs s) = Some rc -> has c (expq_h s) = true ->
+  1 <= c_counter rc
+  /\ (exists h, In (EvBatchStart c (c_counter rc) h (c_breq rc)) (log s))
+  /\ c_breq rc = count (issue_in c (c_counter rc)) (log s)
+  /\ len (filter (in_batch c (c_counter rc)) (keys (resps s))) = c_bresp rc
+  /\ c_bresp rc = count (respond_in c (c_counter rc)) (log s).
+Proof.
+  intros HI Hst Hcnt (_ & C2) Grc He. pose proof (Hst _ _ Grc He) as H1.
+  destruct (C2 _ _ Grc) as (A1 & A2 & _ & A4).
+  split; [exact H1|]. split; [exact (A4 H1)|]. split; [symmetry; exact A1|].
+  split; [eapply stored_resps_count; eauto|symmetry; exact A2].
+Qed.
+
+Lemma CB_msg cfg s o s' :
+  wf_cfg cfg -> Inv cfg s -> PB cfg s -> wf_op s o -> (forall dt, o <> OEndBlock dt) ->
+  handle cfg s o = Ok s' -> CB cfg s'.
+Proof.
+  intros Hcfg HI (Hst & Hcnt & HC & HB) Hwf Hne H c n outs err Hin.
+  assert (Hold : forall d, log s' = d ++ log s -> In (EvCbResp c n outs err) (log s) ->
+                 cb_witness cfg (log s') c n outs err).
+  { intros d E Hin0. rewrite E. apply cb_witness_mono. now apply HB. }
+  apply (In_blog (EvCbResp c n outs err) s' eq_refl) in Hin.
+  assert (Hother : (forall r who code out ov ok, o <> ORespond r who code out ov ok) ->
+                   cb_witness cfg (log s') c n outs err).
+  { intros Hnr. destruct (msg_nir _ _ _ _ H Hne Hnr) as (d & E & _).
+    apply (Hold d E), (In_blog (EvCbResp c n outs err) s eq_refl).
+    destruct (C12_callback_msg_other _ _ _ _ Hcfg HI Hwf Hne H Hnr) as [Eb|(c1 & Eb)]; rewrite Eb in Hin.
+    - exact Hin.
+    - destruct Hin as [E1|Hin]; [discriminate E1|exact Hin]. }
+  destruct o; try (apply Hother; intros; discriminate).
+  cbn [handle] in H.
+  destruct (respond_log _ _ _ _ _ _ _ _ _ H) as (d1 & d2 & El & _ & _).
+  destruct (respond_blog _ _ _ _ _ _ _ _ _ Hcfg HI H) as (rc & Grc & Eb).
+  rewrite Eb in Hin. apply in_app_or in Hin. destruct Hin as [Hin|Hin].
+  2:{ apply (Hold (d1 ++ EvRespond r :: d2)); [rewrite El, <- app_assoc; reflexivity|].
+      apply (In_blog (EvCbResp c n outs err) s eq_refl), Hin. }
+  destruct (c_bresp rc + 1 =? c_breq rc) eqn:Ecomp; [|destruct Hin].
+  apply In_done_events_cb in Hin. destruct Hin as (-> & -> & -> & -> & Hm).
+  destruct (respond_exact _ _ _ _ _ _ _ _ _ Hcfg HI H)
+    as (q & rc0 & Gq & Hact & Hwho & Grc0 & Gexp & Hnd & Hb & Gnone & _).
+  assert (rc0 = rc) by congruence. subst rc0.
+  destruct (inv_req _ _ HI) as (R1 & _).
+  destruct (R1 _ _ (get_In _ _ _ Gq)) as (rc0 & Grc0' & Ebt & _).
+  assert (rc0 = rc) by congruence. subst rc0.
+  assert (He : has (rid_ctx r) (expq_h s) = true) by (unfold has; now rewrite Gexp).
+  destruct (witness_core cfg s _ rc HI Hst Hcnt HC Grc He) as (W1 & W2 & W3 & W4 & W5).
+  exists s, rc, (d1 ++ EvRespond r :: d2). split; [exact HI|].
+  split; [rewrite El, <- app_assoc; reflexivity|]. split; [exact Grc|].
+  split; [reflexivity|]. split; [exact W1|]. split; [exact Hm|]. split; [exact Hnd|]. split; [exact He|].
+  split; [exact W2|]. split; [exact W3|]. split; [exact W4|]. split; [exact W5|].
+  split; [reflexivity|]. left. exists r, q, who, code, out.
+  split; [exact Gq|]. split; [exact Hact|]. split; [exact Hwho|].
+  split; [apply in_batch_true; auto|]. split; [exact Gnone|]. split; [now apply Z.eqb_eq|].
+  split; [apply in_or_app; right; now left|reflexivity].
+Qed.
+
+Lemma CB_expire_one cfg s c0 :
+  wf_cfg cfg -> Inv cfg s -> PB cfg s -> In (height s, c0) (expq s) -> height s < HEIGHT_BOUND ->
+  CB cfg (expire_one cfg s c0).
+Proof.
+  intros Hcfg HI (Hst & Hcnt & HC & HB) Hdue Hb c n outs err Hin.
+  destruct (expire_one_spec cfg s c0 Hcfg HI Hdue Hb) as (rc & rc1 & Grc & Gexp & _).
+  destruct (nir_expire_one cfg s c0) as (d & El & _).
+  assert (Hold : In (EvCbResp c n outs err) (log s) -> cb_witness cfg (log (expire_one cfg s c0)) c n outs err).
+  { intros Hin0. rewrite El. apply cb_witness_mono. now apply HB. }
+  apply (In_blog (EvCbResp c n outs err) _ eq_refl) in Hin. rewrite (expire_one_blog cfg s c0 rc HI Grc) in Hin.
+  apply in_app_or in Hin. destruct Hin as [Hin|Hin].
+  { destruct (fin_b rc); [destruct Hin as [E|[]]; discriminate E|destruct Hin]. }
+  apply in_app_or in Hin. destruct Hin as [Hin|Hin]; [|apply Hold, (In_blog (EvCbResp c n outs err) s eq_refl), Hin].
+  destruct (c_bdone rc) eqn:Hnd; [destruct Hin|].
+  apply In_done_events_cb in Hin. destruct Hin as (-> & -> & -> & -> & Hm).
+  assert (He : has c0 (expq_h s) = true) by (unfold has; now rewrite Gexp).
+  destruct (witness_core cfg s _ rc HI Hst Hcnt HC Grc He) as (W1 & W2 & W3 & W4 & W5).
+  exists s, rc, d. split; [exact HI|]. split; [exact El|]. split; [exact Grc|].
+  split; [reflexivity|]. split; [exact W1|]. split; [exact Hm|]. split; [exact Hnd|]. split; [exact He|].
+  split; [exact W2|]. split; [exact W3|]. split; [exact W4|]. split; [exact W5|].
+  split; [reflexivity|]. right. auto.
+Qed.
+
+Lemma new_one_suffix cfg s c rc : wf (ctxs s) -> get c (ctxs s) = Some rc ->
+  exists d, log (new_one cfg s c) = d ++ log s.
+Proof.
+  intros Wc Grc. destruct (new_one_full cfg s c rc Wc Grc) as [((d & E & _) & _)|(sp & provs & (d & E & _) & El & _)].
+  - now exists d.
+  - eexists. rewrite El, E, app_comm_cons, app_assoc. reflexivity.
+Qed.
+
+Lemma CB_new_one cfg s c0 :
+  wf_cfg cfg -> Inv cfg s -> PB cfg s -> In (height s, c0) (newq s) -> height s < HEIGHT_BOUND ->
+  CB cfg (new_one cfg s c0).
+Proof.
+  intros Hcfg HI (Hst & Hcnt & HC & HB) Hdue Hb c n outs err Hin.
+  destruct (new_one_spec cfg s c0 HI Hdue) as (rc & Grc & _).
+  destruct (Inv_wf_sched _ _ HI) as (Wc & _).
+  destruct (new_one_suffix cfg s c0 rc Wc Grc) as (d & El).
+  rewrite El. apply cb_witness_mono. apply HB.
+  apply (In_blog (EvCbResp c n outs err) _ eq_refl) in Hin. apply (In_blog (EvCbResp c n outs err) s eq_refl).
+  destruct (new_one_blog cfg s c0 rc Grc)
+    as [(_ & Eb)|[(_ & _ & k & Eb & _)|[(_ & _ & Eb & _)|(_ & Eb & _)]]]; rewrite Eb in Hin.
+  - destruct Hin as [E|Hin]; [discriminate E|exact Hin].
+  - destruct Hin as [E|Hin]; [discriminate E|exact Hin].
+  - apply in_app_or in Hin. destruct Hin as [Hin|Hin]; [|exact Hin].
+    destruct (c_mod rc =? 0); [destruct Hin|destruct Hin as [E|[]]; discriminate E].
+  - exact Hin.
+Qed.
+
+Theorem Reach_PB cfg s : wf_cfg cfg -> Reach cfg s -> PB cfg s.
+Proof.
+  intros Hcfg. apply (Reach_ind_inv cfg (PB cfg) Hcfg).
+  - intros h0 t0 f _ _ _. split; [intros c rc G; discriminate|]. split; [apply I_cnt_init|].
+    split; [apply CT_init|]. intros c n outs err [].
+  - intros s0 o s' HI HP Hwf Hne H. pose proof HP as (P0 & P1 & P2 & P3).
+    split; [eapply I_started_msg; eauto|]. split; [eapply I_cnt_msg; eauto|].
+    split; [eapply CT_msg; eauto|eapply CB_msg; eauto].
+  - intros s0 c HI HP Hd Hb. pose proof HP as (P0 & P1 & P2 & P3).
+    split; [now apply I_started_expire_one|]. split; [now apply I_cnt_expire_one|].
+    split; [now apply CT_expire_one|now apply CB_expire_one].
+  - intros s0 c HI HP Hd Hb. pose proof HP as (P0 & P1 & P2 & P3).
+    split; [now apply I_started_new_one|]. split; [now apply I_cnt_new_one|].
+    split; [now apply CT_new_one|now apply CB_new_one].
+  - intros s0 dt _ HP _ _ _. exact HP.
+Qed.
+
+(* C12_callback_args *)
+Theorem callback_args cfg s c n outs err : wf_cfg cfg -> Reach cfg s ->
+  In (EvCbResp c n outs err) (log s) -> cb_witness cfg (log s) c n outs err.
+Proof. intros Hcfg Hr. destruct (Reach_PB cfg s Hcfg Hr) as (_ & _ & _ & HB). apply HB. Qed.
+
+Lemma count_In_pos {A} (f : A -> bool) l a : In a l -> f a = true -> 1 <= count f l.
+Proof. intros Hin Hf. apply count_pos_In. eauto. Qed.
+
+(* consequences that do not mention the witness state: the callback of batch n of context c comes
+   after the start of batch n, which announced k requests; it carries only non-empty outputs, at
+   most one per response accepted for the batch and hence at most k, and k requests had been
+   issued *)
+Theorem callback_args_log cfg s c n outs err : wf_cfg cfg -> Reach cfg s ->
+  In (EvCbResp c n outs err) (log s) ->
+  (forall o, In o outs -> o <> 0)
+  /\ len outs <= count (respond_in c n) (log s)
+  /\ exists h k, In (EvBatchStart c n h k) (log s)
+       /\ len outs <= k /\ k <= count (issue_in c n) (log s).
+Proof.
+  intros Hcfg Hr Hin.
+  destruct (callback_args cfg s c n outs err Hcfg Hr Hin)
+    as (s0 & rc & d & HI & El & Grc & En & Hn1 & Hm & Hnd & He & (h & Hst) & Hiss & Hsto & Hre & Herr & Hcase).
+  pose proof (inv_wf _ _ HI) as W. assert (Wp : wf (resps s0)) by apply W.
+  destruct (inv_req _ _ HI) as (_ & _ & R3). destruct (R3 _ _ Grc) as (B1 & _).
+  assert (Hmono : forall f, count f (log s0) <= count f (log s)).
+  { intros f. rewrite El, count_app. pose proof (count_nonneg f d). lia. }
+  assert (Hmain : (forall o, In o outs -> o <> 0)
+                  /\ len outs <= count (respond_in c n) (log s) /\ len outs <= c_breq rc).
+  { destruct Hcase as [(r & q & who & code & out & G1 & G2 & G3 & G4 & G5 & G6 & G7 & ->)|(_ & ->)].
+    - set (sx := set_resps s0 (set r (mkResp who (c_cons rc) code out) (resps s0))).
+      assert (Wx : wf (resps sx)) by (unfold sx; sproj; now apply wf_set).
+      split; [intros o Ho; apply (batch_outputs_In sx c n o Wx) in Ho; tauto|].
+      assert (Hlen : len (batch_outputs sx c n) <= c_bresp rc + 1).
+      { eapply Z.le_trans; [apply len_batch_outputs_le|]. unfold sx. sproj.
+        rewrite keys_set_notin by (apply get_None_notin; exact G5).
+        rewrite filter_app. unfold len in *. rewrite app_length. cbn [filter]. rewrite G4. cbn [length]. lia. }
+      split; [|lia].
+      rewrite El, count_app.
+      pose proof (count_In_pos (respond_in c n) d (EvRespond r) G7 G4). unfold len in *. lia.
+    - split; [intros o Ho; apply (batch_outputs_In s0 c n o Wp) in Ho; tauto|].
+      pose proof (len_batch_outputs_le s0 c n). pose proof (Hmono (respond_in c n)). split; lia. }
+  destruct Hmain as (M1 & M2 & M3).
+  split; [exact M1|]. split; [exact M2|]. exists h, (c_breq rc).
+  split; [rewrite El; apply in_or_app; now right|]. split; [exact M3|].
+  rewrite Hiss. apply Hmono.
+Qed.
+
+(* ------------------------------------------------------------------ *)
+(* the hypotheses are satisfiable: the histories of Proofs/BatchEx.v *)
+From SVC Require Import Proofs.ReachRun Proofs.BatchEx.
+
+Module ExG.
+  Import BEx.
+
+  (* s_x: after the expiry block of height 6; the callback of c1's batch 1 is in the log *)
+  Example callback_in_log : In (EvCbResp c1 1 [1; 2] false) (log s_x).
+  Proof. vm_compute. auto 20. Qed.
+
+  Example callback_args_ex : cb_witness cfg0 (log s_x) c1 1 [1; 2] false.
+  Proof. exact (callback_args cfg0 s_x c1 1 [1; 2] false wf_cfg0 reach_x callback_in_log). Qed.
+
+  (* s_e: batch 1 of c1 in flight, 3 requests issued, 2 answered *)
+  Example counts_trace_ex :
+    exists rc, get c1 (ctxs s_e) = Some rc /\ c_counter rc = 1 /\ c_breq rc = 3 /\ c_bresp rc = 2
+      /\ count (issue_in c1 1) (log s_e) = 3 /\ count (respond_in c1 1) (log s_e) = 2.
+  Proof. eexists. split; [vm_compute; reflexivity|]. repeat split; vm_compute; reflexivity. Qed.
+
+  (* s_n3: the consumer of the module context c2 cannot pay for batch 3 *)
+  Example funds_short_ex :
+    exists rc, get c2 (ctxs s_n3) = Some rc /\ c_state rc = Running /\ d5 rc = false
+      /\ funds_short s_n3 rc = true /\ c_mod rc <> 0.
+  Proof. eexists. split; [vm_compute; reflexivity|]. repeat split; try (vm_compute; reflexivity). discriminate. Qed.
+End ExG.
